@@ -53,7 +53,7 @@ CHECKS = {
                        "in {Panic, Fatal} and not all(LnoInterrupt) and (not testing or any(Linterruptalways)); Panic = Go panic with the "
                        "message as value, Fatal = os.Exit(-3); the complete record is on the error writer before termination; no other "
                        "severity terminates.",
-        "bounds": {"quick": "message \"m\" or a text with markup and entities; recorded package level arbitrary; LogAttrs/Logit with every argument shape; 61 entry points x 3 formats x all int64 levels x testing/production x all combinations of the non-printing flag bits; "
+        "bounds": {"quick": "message \"m\" or a text with markup and entities; severities of LogAttrs/Logit incl. two registered levels gated as Panic and as Fatal; recorded package level arbitrary; LogAttrs/Logit with every argument shape; 61 entry points x 3 formats x all int64 levels x testing/production x all combinations of the non-printing flag bits; "
                             "LogAttrs/Logit severities -1..13; message 'm'",
                    "thorough": "same (the space is covered completely at quick)"},
         "outside": "the exit status as seen by the parent process (253 = OS truncation of -3); loggers with a log/slog.Handler option",
@@ -127,7 +127,7 @@ CHECKS = {
                        "mappings is unchanged or a shorter relative path denoting the same file. R: the caller field of a record - a record written "
                        "from a call site whose directory is registered as protected, in 4 logger configurations, with the privacy and caller "
                        "flags on and every combination of the other ten flag bits: the payload must name the file and must not contain the directory.",
-        "bounds": {"quick": "R: 4 configurations x 1024 flag combinations; directory names of 1..2 letters over {a,b}; input paths up to 4 bytes over {/,.,a,b,~} (up to 2 after /Volumes/); 0..1 extra mapping added and optionally removed",
+        "bounds": {"quick": "replacements shorter or longer than the prefix; R: 4 configurations x 1024 flag combinations; directory names of 1..2 letters over {a,b}; input paths up to 4 bytes over {/,.,a,b,~} (up to 2 after /Volumes/); 0..1 extra mapping added and optionally removed",
                    "thorough": "directory names 1..2; input paths up to 6 bytes; 0..2 extra mappings"},
         "outside": "regexp mappings (table kept empty: regexp execution on symbolic strings is not encoded); Windows paths; longer paths",
         "assumptions": ["os.Getwd returns /tmp (engine stub; the native replayer runs in /tmp)"],
@@ -248,7 +248,7 @@ CHECKS = {
                        "absent in the context, nil context, the inherit flag, key/value pairs vs Attr values at the call site. The observed "
                        "(key,value) sequence of the logfmt record must equal the reference merge of the statement. G: the same inside a "
                        "group. L: 13..14 call-site attributes over two keys (8192+ layouts) through the real pdqsort.",
-        "bounds": {"quick": "chain depth <= 2, <= 1 own attribute per logger, <= 1 context key, <= 2 call-site attributes; chain depth <= 4 with 0..1 own attributes per logger (every empty/non-empty pattern), no context key, <= 1 call-site attribute; 2 registered context keys (string/Stringer, each present or absent) on a single logger; groups of <= 3 members; 13 attributes over {a,b}",
+        "bounds": {"quick": "the unrelated Lattrs flag bit arbitrary in the deep-chain run; chain depth <= 2, <= 1 own attribute per logger, <= 1 context key, <= 2 call-site attributes; chain depth <= 4 with 0..1 own attributes per logger (every empty/non-empty pattern), no context key, <= 1 call-site attribute; 2 registered context keys (string/Stringer, each present or absent) on a single logger; groups of <= 3 members; 13 attributes over {a,b}",
                    "thorough": "chain depth <= 3, <= 1 own attribute per logger, <= 1 context key, <= 2 call-site attributes (3 took 25 minutes alone); chain depth <= 4 with 0..2 own attributes; chains sharing one prepared attribute set; 13..15 attributes"},
         "outside": "attribute lists of 17..64 elements; observation through the colored format (C06 checks key order there on fixed lists)",
         "assumptions": ["values are distinct integers tagging their source; observation through logfmt and JSON loggers without caller field"],
@@ -256,7 +256,7 @@ CHECKS = {
             {"harness": "VH_C07", "quick": {"chain": 2, "own": 1, "ctxkeys": 1, "site": 2, "json": 1}, "thorough": {"chain": 3, "own": 1, "ctxkeys": 1, "site": 2, "json": 1},
              "covers": ["C07:compared"]},
             # deep chains with empty loggers in the middle (the inherit walk must not stop at them)
-            {"harness": "VH_C07", "quick": {"chain": 4, "own": 1, "ctxkeys": 0, "site": 1, "json": 0}, "thorough": {"chain": 4, "own": 2, "ctxkeys": 0, "site": 1, "json": 1},
+            {"harness": "VH_C07", "quick": {"chain": 4, "own": 1, "ctxkeys": 0, "site": 1, "json": 0, "lattrs": 1}, "thorough": {"chain": 4, "own": 2, "ctxkeys": 0, "site": 1, "json": 1, "lattrs": 1},
              "covers": ["C07:compared"]},
             # several registered context keys, present or absent in any pattern
             {"harness": "VH_C07", "quick": {"chain": 1, "own": 0, "ctxkeys": 2, "site": 1, "json": 0}, "thorough": {"chain": 1, "own": 1, "ctxkeys": 3, "site": 1, "json": 0},
@@ -291,7 +291,7 @@ CHECKS = {
                        "or any history record under flags differing in one bit) must observe the same payload for the same key, so state cached "
                        "in package variables cannot be warmed by the check itself; a difference is confirmed by running both executions natively "
                        "as two processes.",
-        "bounds": {"quick": "stale buffer 2 bytes, stale strings 1-2 bytes, 2 stale colour values each; 3 formats x 2 UTC modes x 4 severities x 3 messages x 5 attribute lists (incl. a group last, an error, a time.Time keyed 'time' last)",
+        "bounds": {"quick": "havoc form: severities incl. a level registered with a foreground colour only; stale buffer 2 bytes, stale strings 1-2 bytes, 2 stale colour values each; 3 formats x 2 UTC modes x 4 severities x 3 messages x 5 attribute lists (incl. a group last, an error, a time.Time keyed 'time' last)",
                    "thorough": "same space (covered at quick)"},
         "outside": "user marshallers that read from the PrintCtx (move off); the pooled attribute slice of logContext (its cells are never read beyond len; C08 checks what is put into that pool); histories of more than one real record (covered by the havoc form for the fields it knows)",
         "assumptions": ["sync.Pool hands back the object put last (engine model; natively true on one goroutine without GC)"],
@@ -317,7 +317,7 @@ CHECKS = {
                        "them. I: the inductive step - a four-logger tree whose every logger has an arbitrary level, format state and UTC mode "
                        "(solver variables, assigned to the fields) and one of two profiles for layout/attributes/skip/context keys/writer; "
                        "one Set... operation on one logger; all others unchanged, the target as the operation denotes.",
-        "bounds": {"quick": "D: package-level SetLevel, then optionally the default logger's own level changed or the default logger replaced; histories of 3 operations from one detached root; S: 3 attribute operations on a 4-logger tree; I: one operation from an arbitrary state of a fixed 4-logger tree",
+        "bounds": {"quick": "24 operations incl. AddWriter; the package's default writers observed after every step; D: package-level SetLevel, then optionally the default logger's own level changed or the default logger replaced; histories of 3 operations from one detached root; S: 3 attribute operations on a 4-logger tree; I: one operation from an arbitrary state of a fixed 4-logger tree",
                    "thorough": "histories of 3 operations (4 did not finish in 30 minutes with 23 operations); S: 4 operations"},
         "outside": "random-name collisions (random names are assumed fresh); SetLevel(Debug/Trace) (process-wide side effect, C01); longer histories",
         "assumptions": ["stringtool.RandomStringPure returns fresh distinct names"],
@@ -337,7 +337,7 @@ CHECKS = {
                        "bridge) is called from a closure that records its own function and line; the closure runs under a chain of four "
                        "wrappers; the logger skips n frames; the record (3 formats; root, child and default logger) must name the closure "
                        "(n=0) or the wrapper n levels up with that wrapper's call line.",
-        "bounds": {"quick": "default logger installed as the root wrapper or as the *Entry itself; an earlier SetSkip before the one in force; 54 entry points x 3 formats x 4 logger kinds (root, child, default logger's tree, one of two WithSkip siblings) x skip 0..2", "thorough": "skip 0..4"},
+        "bounds": {"quick": "default logger installed as the root wrapper or as the *Entry itself; an earlier SetSkip before the one in force; 57 entry points (incl. printf verbs with a plain format) x 3 formats x 4 logger kinds (root, child, default logger's tree, one of two WithSkip siblings) x skip 0..2", "thorough": "skip 0..4"},
         "outside": "identity between the Go runtime's frame elision/inlining and go/ssa's notion of synthetic wrapper: trusted, cross-validated because every counterexample is replayed natively",
         "assumptions": ["runtime.Callers answered from the engine's call stack"],
         "runs": [
@@ -358,7 +358,7 @@ CHECKS = {
                        "a group, two attributes); afterwards every handler of the tree handles a record, which must be byte-identical to the "
                        "native record carrying exactly the attributes of that handler's own derivation path (siblings must not disturb each "
                        "other, whatever the slice capacities along the way).",
-        "bounds": {"quick": "B: message <= 1 byte, <= 1 attribute, group depth 1; D: printable messages <= 2 bytes, 7x6 level pairs; F: every derivation tree of 4 steps",
+        "bounds": {"quick": "B: the record's time is a fixed instant or the zero instant; F: the record carries an attribute colliding with a bound key; B: message <= 1 byte, <= 1 attribute, group depth 1; D: printable messages <= 2 bytes, 7x6 level pairs; F: every derivation tree of 4 steps",
                    "thorough": "B: message <= 2 bytes, <= 2 attributes without nesting; D: messages <= 3 bytes; F: every derivation tree of 5 steps"},
         "outside": "handler option combinations of NewSlogHandler (they mutate process-wide flags); derivation trees of more than 5 steps",
         "assumptions": ["log/slog's own elision of empty groups from a Record is the standard library's behaviour"],
@@ -381,7 +381,7 @@ CHECKS = {
                        "kinds (string, bool, int64/uint64 extremes, small widths, float, complex, Duration, Time, error, Stringer, []byte, "
                        "nil, []string/[]int/[]bool, struct via the fallback, groups nested to the bound incl. empty), caller field on/off: "
                        "members time/logger/level/msg/caller, one member per key, values preserved.",
-        "bounds": {"quick": "string/message/key positions also with four longer texts containing HTML-like markup, entities, leading blanks and CR; float64 values incl. one that is exactly a float32; A: strings of <= 2 bytes; B: 1 attribute with group depth 1, and 2 attributes without groups",
+        "bounds": {"quick": "the message at five severities (Info, Error, OK, Fail, unregistered); string/message/key positions also with four longer texts containing HTML-like markup, entities, leading blanks and CR; float64 values incl. one that is exactly a float32; A: strings of <= 2 bytes; B: 1 attribute with group depth 1, and 2 attributes without groups",
                    "thorough": "A: strings of <= 3 bytes; B as quick (group depth 2 did not finish in 30 minutes)"},
         "outside": "maps via the fallback formatter (fmt needs reflect.Value.MapRange: not encoded); user marshallers / value stringers (excluded by the property); longer strings",
         "assumptions": ["timestamp text comes from the real time formatter on a fixed instant"],
@@ -399,12 +399,13 @@ CHECKS = {
                        "including []byte, nil, error, Stringer, Duration and groups nested to the bound at every position. Asserted: one "
                        "line; time, logger, level, msg first; msg parses back; exactly one pair per attribute under its own (dotted) key "
                        "with its exact value; string-like values quoted; no forged pair.",
-        "bounds": {"quick": "messages also among four longer texts containing HTML-like markup, entities, leading blanks and CR; rune kernel: message or string value 'a'+r+'b' for EVERY Unicode scalar value r (strconv.IsPrint as an exact interval function); message <= 2 bytes at Info and <= 1 byte (empty, blank, special, ordinary) at Error, Debug, OK, Success, Fail and a registered custom severity (no attributes); 1 attribute of any kind (incl. times needing nine fractional digits and a zone offset, durations of 1ns / 25h1m1.000000001s / negative, parsed back to the exact value) incl. a group with <= 2 members of any kind at every position; keys of 1 byte", "thorough": "as quick, plus 2 top-level attributes of any kind (an attribute after a group); group depth 2 with 2-byte keys did not finish in 30 minutes"},
+        "bounds": {"quick": "attribute run also with debug mode switched on at run time (still a production process); messages also among four longer texts containing HTML-like markup, entities, leading blanks and CR; rune kernel: message or string value 'a'+r+'b' for EVERY Unicode scalar value r (strconv.IsPrint as an exact interval function); message <= 2 bytes at Info and <= 1 byte (empty, blank, special, ordinary) at Error, Debug, OK, Success, Fail and a registered custom severity (no attributes); 1 attribute of any kind (incl. times needing nine fractional digits and a zone offset, durations of 1ns / 25h1m1.000000001s / negative, parsed back to the exact value) incl. a group with <= 2 members of any kind at every position; keys of 1 byte", "thorough": "as quick, plus 2 top-level attributes of any kind (an attribute after a group); group depth 2 with 2-byte keys did not finish in 30 minutes"},
         "outside": "the multi-line error dump under go test / debugger (production mode is set by the harness); user marshallers",
         "assumptions": ["runs of spaces between pairs are not counted as pairs"],
         "runs": [
             {"harness": "VH_C05", "quick": {"attrs": 1, "depth": 1, "msg": 2, "key": 1}, "thorough": {"attrs": 1, "depth": 1, "msg": 2, "key": 1}, "covers": ["C05:rendered"]},
             {"harness": "VH_C05", "quick": {"attrs": 2, "depth": 0, "msg": 0, "key": 0}, "thorough": {"attrs": 2, "depth": 0, "msg": 0, "key": 0}, "thorough_only": True, "covers": ["C05:rendered"]},
+            {"harness": "VH_C05", "quick": {"attrs": 1, "depth": 0, "msg": 0, "key": 0, "rtdebug": 1}, "thorough": {"attrs": 1, "depth": 1, "msg": 0, "key": 0, "rtdebug": 1}, "covers": ["C05:rendered"]},
             {"harness": "VH_C05R", "covers": ["C05R:rendered"]},
         ],
     },
@@ -417,7 +418,7 @@ CHECKS = {
                        "bytes; attribute values contribute no raw control bytes. Oracle 2 (layout): the text without escapes must equal "
                        "timestamp, name, [tag of the configured width], first line padded to the minimal width, attributes in key order, "
                        "rest lines indented by four spaces - for severities built-in, registered with and without tags, and unregistered.",
-        "bounds": {"quick": "messages <= 3 bytes over printable ASCII without < > & plus LF (layout) / <= 2 bytes of anything but ESC (hygiene); tag widths 1..5 and minimal widths 16/17/36 with messages <= 2 bytes; attribute lists: ints, symbolic string, error+group; and for hygiene a []byte, an error and a Stringer value each containing an arbitrary byte",
+        "bounds": {"quick": "severities incl. a level registered with short tags for some widths only; messages <= 3 bytes over printable ASCII without < > & plus LF (layout) / <= 2 bytes of anything but ESC (hygiene); tag widths 1..5 and minimal widths 16/17/36 with messages <= 2 bytes; attribute lists: ints, symbolic string, error+group; and for hygiene a []byte, an error and a Stringer value each containing an arbitrary byte",
                    "thorough": "messages <= 4 bytes (layout); hygiene as quick (3 bytes did not finish in 30 minutes)"},
         "outside": "messages containing < > & (excluded by the property); the multi-line error dump under go test; caller field (C14)",
         "assumptions": ["timestamp text from the real formatter on a fixed instant"],
@@ -443,14 +444,14 @@ CHECKS = {
                        "of another logger that recycles the pools. Reduction (argued, not checked): "
                        "if every call writes only memory it owns, two concurrent calls share only memory neither writes, so there is no "
                        "data race between them and each payload is built in private memory.",
-        "bounds": {"quick": "shared groups also with 9 pairs out of order (18 entries); a child binding a key its parent binds (inherit flag); groups of 1..3 members over keys {a,b}; 4 argument shapes; 2 logger shapes; 3 formats; 2 messages; 2 entry points",
+        "bounds": {"quick": "a re-entrant destination (its Write logs through another logger before consuming the payload); shared groups also with 9 pairs out of order (18 entries); a child binding a key its parent binds (inherit flag); groups of 1..3 members over keys {a,b}; 4 argument shapes; 2 logger shapes; 3 formats; 2 messages; 2 entry points",
                    "thorough": "same (covered at quick)"},
         "outside": "any race that needs two goroutines to manifest and is not a violation of the ownership discipline; reconfiguration during logging; "
                    "global tables written by RegisterLevel/SetFlags; races inside the standard library or the destinations; delivery multiset (C02/C13 decide one Write per call)",
         "assumptions": ["sync.Pool hands an object to one goroutine at a time; sync/atomic is atomic; destinations are safe for concurrent Write",
                         "monitor violations are engine observations (label suffix [engine]): their replay is the deterministic re-execution by the engine; the snapshot assertions replay natively"],
         "runs": [
-            {"harness": "VH_C08", "covers": ["C08:called", "C08:writethru", "C08:adapter"]},
+            {"harness": "VH_C08", "covers": ["C08:called", "C08:writethru", "C08:adapter", "C08:reentrant"]},
         ],
     },
 }
